@@ -15,9 +15,20 @@ CHECKS = {
  "C13": {"design_ref": "DESIGN 4 C13", "technique": TECH + "symbolic signature bytes through the real header checkers",
          "text": "Pairwise distinctness of the type signatures (the u64/vu64 collision is a recorded finding).", "note": NOTE},
 }
+MTECH = TECH + "one inductive step of the real map logic (dbxxx.rs re-linked against abstract record stores) from an arbitrary valid state built from solver variables; ideal-map oracle + representation invariant"
+CHECKS.update({
+ "C01": {"design_ref": "DESIGN 4 C01", "technique": MTECH,
+         "text": "Every put / get / delete / includes_key / len / is_empty call of the real dbxxx.rs, started from ANY valid state within the structure bounds (chain order, bucket, record addresses and hence offset widths, slot sizes, key and value bytes all solver variables), returns what an ideal map returns, leaves every other entry alone, keeps the representation invariant and neither panics nor loops; by induction this covers call histories of any length over states within the bounds.", "note": NOTE},
+ "C08": {"design_ref": "DESIGN 4 C08", "technique": MTECH,
+         "text": "Overwrite and delete with the record stores relocating exactly when the released sizing rule demands it: the affected key first/middle/last/only in its chain, value record moves, key record moves, the chain predecessor moves as well (cascade), bucket head updates - all reachable (cover witnesses) and all invisible to the ideal-map oracle; plus a solver witness that a changed offset alone can force a bigger slot.", "note": NOTE},
+ "C03": {"design_ref": "DESIGN 4 C03", "technique": MTECH + "; flush/sync events observed in the store models",
+         "text": "After any single update from a clean or freshly opened handle, flush / sync_all / sync_data returning Ok implies that no store holds an unwritten update, each modified file was flushed and (for sync_*) synced after its last write, in the order value, key, table. Solver variables: pre-state, key, value, kind of call.", "note": NOTE},
+ "C16": {"design_ref": "DESIGN 4 C16", "technique": MTECH + "; symbolic fault index over the three store flushes",
+         "text": "With the flush of the 1st, 2nd or 3rd file failing (solver's choice) after a put or a delete: the call returns Err, lookups still agree with the ideal map, the handle stays dirty and a later fault-free flush leaves nothing unwritten.", "note": NOTE},
+})
 NOT_APPLICABLE = {
  "C11": "registry of maps = five BTreeMap<String,_> + format!/PathBuf file naming + the OS file namespace: symbolic execution of that code does not finish (10 min in BTreeMap search/memcmp/io::Error drop glue for one concrete name) and isolation itself is a property of the file system, which this technique can only stub; the one solver-sized fact (clones share one Rc<RefCell<_>>) holds by type.",
 }
-for p in ["C01", "C02", "C03", "C04", "C05", "C08", "C14", "C15", "C16", "C17", "C18"]:
+for p in ["C02", "C04", "C05", "C14", "C15", "C17", "C18"]:
     NOT_APPLICABLE[p] = "check under construction in this session (see DESIGN 4); not claimed until its harness family reaches a verdict on the unchanged tree"
 NOTES = "All checks: exit 0 held (KNOWN-FINDING lines for recorded findings), exit 1 VIOLATION after native playback of the solver's counterexample, exit 2 inconclusive (timeout, out of memory, build failure of a re-linked harness crate, counterexample that does not replay). See DESIGN.md."
